@@ -191,6 +191,61 @@ def run(ctx):
             for k in list(sys.modules):
                 if k.split(".")[0] == pkg:
                     del sys.modules[k]
+    # the producer is a keep inside a method of a class - written in the class itself, inherited from a base class, inherited over
+    # two levels - and the reader comes after it (the load returns the value just kept, on a fresh and on a populated store) or
+    # before it (the evaluation is rejected, nothing runs; on a populated store too, where the previous content is at hand)
+    for ci, (where, order) in enumerate([(w_, o_) for w_ in ("own", "base", "base2") for o_ in ("after", "before")]):
+        base = tempfile.mkdtemp(prefix="ddsverif_c09m_")
+        pkg = "c9m_%d_%d" % (os.getpid(), ci)
+        try:
+            store_kind = ["memory", "local", "local_lru"][ci % 3]
+            real.reset_process_state()
+            real.set_store(store_kind, os.path.join(base, "si"), os.path.join(base, "sd"))
+            ref.call(cmd="refpaths", paths={})
+            meth = "    def fit(self):\n        return dds.keep('/m/fit', fit_impl)\n\n"
+            classes = {"own": "class Model(object):\n" + meth,
+                       "base": "class Base(object):\n" + meth + "class Model(Base):\n    def other(self):\n        return 1\n\n",
+                       "base2": "class Base0(object):\n" + meth + "class Base(Base0):\n    pass\n\nclass Model(Base):\n    def other(self):\n        return 1\n\n"}[where]
+            body = {"after": "    a = dds.keep('/m/out', out)\n    b = dds.keep('/m/reader', reader)\n",
+                    "before": "    b = dds.keep('/m/reader', reader)\n    a = dds.keep('/m/out', out)\n"}[order]
+            for step, (expr, fbody) in enumerate([("'v1'", body if order == "after" else None), ("'v2'", body), ("'v2'", body), ("'v3'", body)]):
+                if fbody is None:
+                    # populate the store first (the producer alone)
+                    fbody = "    a = dds.keep('/m/out', out)\n    b = None\n"
+                src = ("import dds\nfrom ddsverif_rt import log, term\n\n"
+                       "def fit_impl():\n    log('fit')\n    return term('fit', %s)\n\n" % expr + classes +
+                       "def out():\n    log('out')\n    m = Model()\n    return term('out', m.fit())\n\n"
+                       "def reader():\n    log('reader')\n    return term('reader', dds.load('/m/fit'))\n\n"
+                       "def f0():\n" + fbody + "    return term('f0', a, b)\n")
+                os.makedirs(os.path.join(base, pkg), exist_ok=True)
+                open(os.path.join(base, pkg, "__init__.py"), "w").close()
+                with open(os.path.join(base, pkg, "main.py"), "w") as fh:
+                    fh.write(src)
+                real.load_world(base, pkg + ".main", None, accept=pkg)
+                ref.call(cmd="world", dir=base, module=pkg + ".main", extmod=None)
+                entry = {"kind": "eval", "fun": "f0"}
+                reads_first = "reader)\n    a =" in fbody
+                rr = None if reads_first else ref.call(cmd="run", entry=entry)
+                r = real.run(entry)
+                res.evaluations += 1
+                res.count("method_producer_steps")
+                res.nontrivial("method producer %s %s step %d" % (where, order, step))
+                bad = None
+                if reads_first:
+                    if r["error"] is None or r["error"]["kind"] != "dds":
+                        bad = "an evaluation that loads /m/fit before the method that keeps it has run is not rejected: value %r, error %s" % (r["value"], r["error"])
+                    elif r["log"]:
+                        bad = "the rejected evaluation executed %s" % (r["log"],)
+                elif rr.get("error") is None and (r["error"] is not None or r["value"] != rr["value"]):
+                    bad = "the load of a path kept by a method (%s) gives %r (error %s), plain execution %r" % (where, r["value"], r["error"], rr["value"])
+                if bad:
+                    res.violations.append({"what": bad, "input": {"source": src, "step": step, "store": store_kind, "where": where, "order": order}, "kf": None})
+                    break
+        finally:
+            shutil.rmtree(base, ignore_errors=True)
+            for k in list(sys.modules):
+                if k.split(".")[0] == pkg:
+                    del sys.modules[k]
     pipeline.close_ref()
     res.rule = ("all 40 combinations placement {root, helper, kept, datafn, loaded value fed to a keep} x producer {datafn, keep} x order {before, after, earlier, never}, plus 16 where the producing function already appeared in the evaluation (called / kept at another path) "
                 "(x%d with fresh random variables / stores / entry kinds), each followed by re-evaluation, producer edit, unrelated edit; one "
